@@ -6,6 +6,7 @@ import (
 	"fmt"
 	"go/ast"
 	"go/token"
+	"go/types"
 	"os"
 	"os/exec"
 	"path/filepath"
@@ -21,7 +22,8 @@ type BCESite struct {
 	Col  int
 	Kind string // IsInBounds | IsSliceInBounds
 	Func string // enclosing function (canonical-ish: recv.name)
-	Expr string // source text of the index/slice expression
+	Expr string // normalised text of the index/slice expression (normExpr)
+	Src  string // source text
 }
 
 // unprovenBounds runs the compiler's own prove pass over the two packages of the working tree and
@@ -96,11 +98,13 @@ func unprovenBounds(c *Ctx) ([]BCESite, error) {
 						switch e := m.(type) {
 						case *ast.IndexExpr:
 							if pp := c.Fset.Position(e.Lbrack); pp.Line == s.Line && pp.Column == s.Col {
-								s.Expr = nodeSrc(c, e)
+								s.Expr = normExpr(c, p.TypesInfo, p.Types, e)
+								s.Src = nodeSrc(c, e)
 							}
 						case *ast.SliceExpr:
 							if pp := c.Fset.Position(e.Lbrack); pp.Line == s.Line && pp.Column == s.Col {
-								s.Expr = nodeSrc(c, e)
+								s.Expr = normExpr(c, p.TypesInfo, p.Types, e)
+								s.Src = nodeSrc(c, e)
 							}
 						}
 						return true
@@ -143,3 +147,51 @@ func nodeSrc(c *Ctx, n ast.Node) string {
 }
 
 var _ = token.NoPos
+
+// normExpr renders an index/slice expression independently of naming and layout: local variables and parameters
+// become "_", named constants their value, white space is dropped. Fields, functions and package-level variables
+// keep their names.
+func normExpr(c *Ctx, info *types.Info, pkg *types.Package, n ast.Node) string {
+	a, b := c.Fset.Position(n.Pos()), c.Fset.Position(n.End())
+	data, err := os.ReadFile(a.Filename)
+	if err != nil || a.Offset < 0 || b.Offset > len(data) {
+		return ""
+	}
+	type rep struct {
+		from, to int
+		with     string
+	}
+	var reps []rep
+	ast.Inspect(n, func(m ast.Node) bool {
+		id, ok := m.(*ast.Ident)
+		if !ok || info == nil {
+			return true
+		}
+		obj := info.Uses[id]
+		if obj == nil {
+			obj = info.Defs[id]
+		}
+		off := c.Fset.Position(id.Pos()).Offset
+		switch o := obj.(type) {
+		case *types.Var:
+			if !o.IsField() && (pkg == nil || o.Parent() != pkg.Scope()) {
+				reps = append(reps, rep{off, off + len(id.Name), "_"})
+			}
+		case *types.Const:
+			if o.Val() != nil && o.Pkg() == pkg {
+				reps = append(reps, rep{off, off + len(id.Name), o.Val().ExactString()})
+			}
+		}
+		return true
+	})
+	sort.Slice(reps, func(i, j int) bool { return reps[i].from > reps[j].from })
+	buf := append([]byte{}, data[a.Offset:b.Offset]...)
+	for _, r := range reps {
+		f, t := r.from-a.Offset, r.to-a.Offset
+		if f < 0 || t > len(buf) {
+			continue
+		}
+		buf = append(buf[:f], append([]byte(r.with), buf[t:]...)...)
+	}
+	return strings.Join(strings.Fields(string(buf)), "")
+}
